@@ -38,7 +38,7 @@ func schnorrWithNonce(d *big.Int, P *oracle.Pt, k *big.Int, msg []byte) []byte {
 func runC13(r *mon.Run) {
 	n := bigN
 	for _, c := range []string{"c13:honest", "c13:odd-y-R", "c13:R=infinity", "c13:r>=p", "c13:r=p-1", "c13:s>=n", "c13:s=n-1", "c13:s=0", "c13:corrupt-r", "c13:corrupt-s", "c13:corrupt-msg",
-		"c13:wrong-key", "c13:sig-length", "c13:accept", "c13:reject", "c13:msglen=0", "c13:msglen!=32", "c13:key:on-curve", "c13:key:off-curve", "c13:key:x>=p", "c13:key:wrong-length"} {
+		"c13:wrong-key", "c13:sig-length", "c13:accept", "c13:reject", "c13:msglen=0", "c13:msglen!=32", "c13:key:on-curve", "c13:key:off-curve", "c13:key:x>=p", "c13:key:wrong-length", "c13:key-handouts-mutated"} {
 		r.Require(c)
 	}
 	r.Each("c13/verify", r.N(3000, 120000), func(w *mon.W, i int) {
@@ -161,6 +161,17 @@ func runC13(r *mon.Run) {
 		if err != nil {
 			w.Fail("c13/NewSchnorrPublicKey", fmt.Sprintf("valid x-only key %x rejected: %v", usePk, err))
 			return
+		}
+		if i%3 == 0 {
+			// the caller mutates what the key object handed out (a Taproot-style tweak of
+			// Point(), an overwritten Bytes()) before verifying with it
+			q := k.Point()
+			q.Add(q, secp256k1.NewGeneratorPoint())
+			kb := k.Bytes()
+			for j := range kb {
+				kb[j] ^= 0x77
+			}
+			w.Class("c13:key-handouts-mutated")
 		}
 		keepSig, keepMsg := append([]byte{}, sig...), append([]byte{}, msg...)
 		if i%2 == 1 {
